@@ -12,10 +12,13 @@ import (
 	"go.mongodb.org/mongo-driver/bson"
 )
 
-func (c *Chunk) exportMatrix() map[string]interface{} {
-	out := make(map[string]interface{})
+// exportMatrix returns one series per metric, in the order of the
+// chunk's metrics: an ordered document rather than a map, so that the
+// order is stable and metrics are never merged.
+func (c *Chunk) exportMatrix() bson.D {
+	out := make(bson.D, 0, len(c.Metrics))
 	for _, m := range c.Metrics {
-		out[m.Key()] = m.getSeries()
+		out = append(out, bson.E{Key: m.Key(), Value: m.getSeries()})
 	}
 	return out
 }
